@@ -1446,6 +1446,8 @@ class PlacementFeasibilityTracker:
     def feasible(self, app):
         """Checks if it is feasible to satisfy demand."""
         constraints, demand = app.shape()
+        # Traits (own and allocation) constrain placement as well.
+        constraints += (app.traits,)
         if constraints in self.recorder:
             # If demand is >= than recorded failure, placement is not feasible.
             if _all_ge(demand, self.recorder[constraints]):
@@ -1456,6 +1458,7 @@ class PlacementFeasibilityTracker:
     def adjust(self, app):
         """Adjust info about failed placement."""
         constraints, demand = app.shape()
+        constraints += (app.traits,)
         if constraints not in self.recorder:
             self.recorder[constraints] = demand
         else:
